@@ -62,6 +62,13 @@ def run(prog, rep, tier, cfg):
     X.iter_guard('K6b', 'extend:claim-of-this-sector', VE, ins, m_rel('ne', ['F:Claim.sector'], ['F:SectorClaim.sector_number'], False), 'claim.sector != declared sector => Err')
     X.iter_guard('K6b', 'extend:maintained-within-term', VE, ins, m_rel('gt', ['F:ExpirationExtension2.new_expiration'], ['F:Claim.term_start', 'F:Claim.term_max', 'OP:Add'], False, pure=True),
                  'new_expiration > term_start + term_max => Err (for maintained claims)', assume=[m_rel('lt', [], ['C:len', 'F:SectorClaim.maintain_claims'], False)])
+    # the declared space is a sum over the *listed* claim ids, so the ids must be pairwise distinct: a repeated id would stand in
+    # for another claim of the same size that is never fetched and whose maximum term is never checked
+    DIST = m_any(m_boolatoms(['C:::insert', 'F:SectorClaim.maintain_claims', 'F:SectorClaim.drop_claims'], True),
+                 m_boolatoms(['C:::contains', 'F:SectorClaim.maintain_claims', 'F:SectorClaim.drop_claims'], False),
+                 m_rel('ne', ['C:::len', 'F:SectorClaim.maintain_claims', 'F:SectorClaim.drop_claims'], ['C:::len'], False),
+                 m_rel('eq', ['C:::len', 'F:SectorClaim.maintain_claims', 'F:SectorClaim.drop_claims'], ['C:::len'], True))
+    X.iter_guard('K6b', 'extend:claim-ids-distinct', VE, ins, DIST, 'a claim id declared twice for a sector => Err (before its size is added to the declared space)')
     for c in VE.calls:
         if callee_is('get_claims')(c):
             rep.need('K8', 'extend:claims-fetched', result_fate(VE, c) == 'try', 'registry lookup failure aborts', c.where)
